@@ -31,7 +31,7 @@ func genXZStreamRecipe(r *sim.Rng, tier string, libShare int) StreamRecipe {
 		}
 		return StreamRecipe{Kind: "corpus", File: sim.Pick(r, files)}
 	}
-	w := genXZWCase(r, "quick", 0, false)
+	w := genXZWCase(r, "src", 0, false)
 	return StreamRecipe{Kind: "lib", W: w}
 }
 
@@ -48,6 +48,11 @@ func init() {
 			c.RDict = sim.Pick(r, []int{4096, 8192, 1 << 16, 1 << 20, 1 << 22})
 			if r.Chance(1, 50) {
 				c.RDict = 0
+			}
+			if r.Chance(1, 2500) {
+				// more than 8 MiB of content with matches reaching beyond the reader's default window
+				c.Stream = StreamRecipe{Kind: "refenc-far-xz", Seed: r.Uint64()}
+				c.Reads = []int{sim.Pick(r, []int{4096, 32768, 1 << 20, 100000})}
 			}
 			return c
 		},
@@ -112,7 +117,7 @@ func init() {
 				if r.Bool() {
 					c.Stream = StreamRecipe{Kind: "refenc-alone", Seed: r.Uint64(), Big: r.Chance(1, 20)}
 				} else {
-					w := genLZWCase(r, "quick", false, false)
+					w := genLZWCase(r, "src", false, false)
 					c.Stream = StreamRecipe{Kind: "lib", W: &w.W}
 				}
 			case 2:
@@ -120,12 +125,25 @@ func init() {
 					c.Stream = StreamRecipe{Kind: "refenc-l2", Seed: r.Uint64(), Big: r.Chance(1, 100)}
 					c.RDict = 1 << 20
 				} else {
-					w := genL2WCase(r, "quick", false)
+					w := genL2WCase(r, "src", false)
 					c.Stream = StreamRecipe{Kind: "lib", W: w}
 					c.RDict = w.L2.EffDictCap()
 				}
 			default:
 				c.Stream = genMulti(r, tier, true)
+			}
+			if r.Chance(1, 3000) {
+				k := sim.Pick(r, []string{"refenc-far-xz", "refenc-far-alone", "refenc-far-l2"})
+				c.Stream = StreamRecipe{Kind: k, Seed: r.Uint64()}
+				c.RDict = sim.Pick(r, []int{4096, 1 << 16})
+				if k == "refenc-far-l2" {
+					c.RDict = 32 << 20 // a raw LZMA2 stream does not declare its dictionary size
+				}
+				for i := range c.Reads {
+					if c.Reads[i] < 273 {
+						c.Reads[i] += 4096 // keep the number of Read calls over 9 MB moderate
+					}
+				}
 			}
 			return c
 		},
@@ -177,7 +195,7 @@ func genMulti(r *sim.Rng, tier string, valid bool) StreamRecipe {
 		var p StreamRecipe
 		switch r.Intn(4) {
 		case 0:
-			w := genXZWCase(r, "quick", 0, false)
+			w := genXZWCase(r, "src", 0, false)
 			max := 600
 			if w.XZ.BlockSize > 0 && int64(max) > 12*w.XZ.BlockSize {
 				max = int(12 * w.XZ.BlockSize)
@@ -187,7 +205,7 @@ func genMulti(r *sim.Rng, tier string, valid bool) StreamRecipe {
 			p = StreamRecipe{Kind: "lib", W: w}
 		case 1:
 			// empty stream written by the library
-			w := genXZWCase(r, "quick", 0, false)
+			w := genXZWCase(r, "src", 0, false)
 			w.Payload = sim.Payload{Kind: "zeros", N: 0}
 			w.Ops = []Op{{K: "c"}}
 			p = StreamRecipe{Kind: "lib", W: w}
